@@ -2,6 +2,7 @@
 """every stored seed must still be reported by at least one of the checks that caught it (meta.json: property + caught_by)"""
 import json, glob, os, subprocess, sys, re
 os.chdir('/verif')
+REPO = os.environ.get('LRS_REPO', '/repo')
 only = sys.argv[1:]
 bad = []
 for d in sorted(glob.glob('/verif/seeded/*/')):
@@ -11,9 +12,9 @@ for d in sorted(glob.glob('/verif/seeded/*/')):
     m = json.load(open(d + 'meta.json'))
     ids = set(re.findall(r'\bC\d\d\b', m.get('check_result', ''))) | {m['property']}
     # checks named as "missed by" do not count, but running them is harmless
-    if subprocess.call(['git', '-C', '/repo', 'diff', '--quiet']) != 0:
+    if subprocess.call(['git', '-C', REPO, 'diff', '--quiet']) != 0:
         print('/repo not clean'); sys.exit(2)
-    if subprocess.call(['git', '-C', '/repo', 'apply', d + 'patch.diff']) != 0:
+    if subprocess.call(['git', '-C', REPO, 'apply', d + 'patch.diff']) != 0:
         print('%s: patch does not apply' % sid); bad.append(sid); continue
     caught = []
     for cid in sorted(ids):
@@ -22,9 +23,10 @@ for d in sorted(glob.glob('/verif/seeded/*/')):
         out = subprocess.run(['./check', cid], stdout=subprocess.PIPE, stderr=subprocess.STDOUT, text=True).stdout
         if 'VIOLATION property=' in out:
             caught.append(cid)
-    subprocess.call(['git', '-C', '/repo', 'checkout', '--', '.'])
+    subprocess.call(['git', '-C', REPO, 'checkout', '--', '.'])
     print('%s: %s' % (sid, 'caught by ' + ','.join(caught) if caught else 'MISSED (ran %s)' % sorted(ids)))
     if not caught:
         bad.append(sid)
-subprocess.call(['git', 'checkout', '-q', 'evidence'])
+if not os.environ.get('LRS_EVIDENCE_DIR'):
+    subprocess.call(['git', 'checkout', '-q', 'evidence'])
 print('missed:', bad)
